@@ -605,6 +605,10 @@ func C01(c *Ctx) {
 	c.c01Clock()
 	c.c01Goroutines()
 	c.c01Cache()
+	r.Rule("R01.6", "replay after a restart starts from what was recorded (shared with C10 R10.4): "+balanceInPlaceText+" A node that was stopped between the state commit and the chain commit rolls the block back from that journal and executes it again: with a wrong previous balance it computes another state root than the nodes that ran through.")
+	c.balanceInPlace("R01.6")
+	r.Rule("R01.7", "block metadata is a function of the block (shared with C02 R02.7): "+perBlockResetText)
+	c.perBlockReset("R01.7")
 }
 
 // syncMapRangeInsensitive: the callback only performs keyed writes / commutative work.
